@@ -62,8 +62,8 @@ def thresholds(tier):
     # <= 1/5 of what the unchanged tree gives
     if tier == "quick":
         return {"children": 100, "child_results": 100, "compared_hashseed": 12, "compared_history": 90,
-                "hist_op_raised": 200, "state:rule_fields": 130, "state:pattern_builder": 40, "state:fold_pass": 25,
-                "sub_repeat_scripts": 4, "sub_mutations": 1, "distinct_nontrivial": 100}
+                "hist_op_raised": 160, "state:rule_fields": 120, "state:pattern_builder": 35, "state:fold_pass": 20,
+                "sub_repeat_scripts": 5, "sub_mutations": 1, "distinct_nontrivial": 100}
     return {"children": 200, "child_results": 2200, "compared_hashseed": 150, "compared_history": 2000,
             "hist_op_raised": 4000, "state:rule_fields": 2500, "state:pattern_builder": 800, "state:fold_pass": 500,
             "sub_repeat_scripts": 10, "sub_mutations": 1, "distinct_nontrivial": 2200}
